@@ -13,7 +13,16 @@ from ..core import group
 TOL = 1e-9          # x (1 + 1/M^2 conditioning of total-pressure inlets); measured worst ~3e-14 for M >= 0.05
 OUTLETS = ["outsub", "outsub_prim", "outsub_qtot", "outsub_nrcbc", "outsub_rh", "outsup"]
 INLETS = ["insub", "insub_cbc", "insup"]
-MACHS = [0.0, 0.02, 0.1, 0.3, 0.5, 0.8, 0.95, 1.05, 1.5, 3.0]
+MACHS = [0.0, 1e-7, 1e-5, 1e-3, 0.02, 0.1, 0.3, 0.5, 0.8, 0.95, 1.05, 1.5, 3.0]
+
+
+def _cond_rhs(cond):
+    """conditioning of ONE operator evaluation, residual measured against the acoustic flux scale rho (|u|+c)^k: a total-pressure
+    condition recovers M^2 to round-off, i.e. the Mach number to eps/M (not eps/M^2, which is the error relative to the velocity
+    itself and the per-step amplification of a solve) -- with 1/M^2 a wrong inlet state below Mach 1e-4 would pass"""
+    # used ADDITIVELY (tolerance = TOL + 1e3 eps / M): dividing the error by 1/M would again hide an error of relative size M, which is
+    # exactly what an inlet that imposes no velocity at all produces
+    return np.sqrt(cond) if np.isfinite(cond) else cond
 
 
 def setup(ctx):
@@ -77,7 +86,7 @@ def _uniform_scn(rng, mname=None, big=0.0):
         else:
             desc_illposed = False
         # conditions that recover a Mach number from a total-to-static pressure ratio lose 1/M^2 (and sqrt(eps) at M = 0)
-        if any(t in kind.replace("(reversed)", "").split("-") for t in ("insub", "insub_cbc", "outsub_qtot")):
+        if any(t in kind.replace("(reversed)", "").split("-") for t in ("insub", "insub_cbc", "insup", "outsub_qtot")):
             cond = 1.0 + 1.0 / mach ** 2 if mach != 0 else float("inf")
         s = abs(u) + np.sqrt(gam * p / rho)
         fs = [rho * s, rho * s * s, rho * s ** 3]; qs = [rho, rho * s, rho * s * s]
@@ -103,7 +112,7 @@ def rhs1d(ctx, rng, idx):
     if not np.isfinite(cond):
         cond = 1.0          # exactly at rest the boundary state is exact (ptot/p == 1 gives M = 0 exactly)
     for i in range(model.neq):
-        ctx.close("rhs1d:residual", np.max(np.abs(r[i])) * dxmin / fs[i] / cond, TOL, "rhs1d/uniform-not-fixed/" + desc["model"] + "/" + kind.split("(")[0],
+        ctx.close("rhs1d:residual", np.max(np.abs(r[i])) * dxmin / fs[i] , TOL + 1e3 * np.finfo(float).eps * _cond_rhs(cond), "rhs1d/uniform-not-fixed/" + desc["model"] + "/" + kind.split("(")[0],
                   {"eq": i, "residual": r[i], "cond": cond}, cls="rhs1d")
     ctx.info.setdefault("bc_kinds", {}).setdefault(kind, 0)
     ctx.info["bc_kinds"][kind] += 1
@@ -210,7 +219,8 @@ def solve1d(ctx, rng, idx):
     res = solver.solve(f, cfl, stop={"maxit": nstep}, directives={"dtlocal": True} if dtlocal else {})
     fe = res[-1]
     for i in range(model.neq):
-        ctx.close("solve1d:drift", np.max(np.abs(fe.data[i] - f.data[i])) / qs[i] / cond ** nstep / nstep, TOL,
+        # (every stage of a multi-stage integrator is one more pass through the boundary condition)
+        ctx.close("solve1d:drift", np.max(np.abs(fe.data[i] - f.data[i])) / qs[i] / cond ** nstep / nstep / gen.NSTAGE.get(iname, 1), TOL,
                   "solve1d/uniform-drifts/%s/%s" % ("implicit" if iname in gen.IMPLICIT else "explicit", desc["model"]),
                   {"eq": i, "integrator": iname, "max_change": np.max(np.abs(fe.data[i] - f.data[i]))}, cls="solve1d")
     if kind == "per" and iname in gen.EXPLICIT and not dtlocal:
@@ -297,7 +307,7 @@ def rhs2d(ctx, rng, idx):
     r = disc.rhs(f)
     dmin = min(m.dx(), m.dy())
     for i in range(3):
-        ctx.close("rhs2d:residual", np.max(np.abs(r[i])) * dmin / fs[i] / cond, TOL, "rhs2d/uniform-not-fixed/" + desc["kind"], {"eq": i, "cond": cond}, cls="rhs2d")
+        ctx.close("rhs2d:residual", np.max(np.abs(r[i])) * dmin / fs[i] , TOL + 1e3 * np.finfo(float).eps * _cond_rhs(cond), "rhs2d/uniform-not-fixed/" + desc["kind"], {"eq": i, "cond": cond}, cls="rhs2d")
     ctx.info.setdefault("kinds2d", {}).setdefault(desc["kind"], 0)
     ctx.info["kinds2d"][desc["kind"]] += 1
     ctx.nontrivial(desc)
@@ -356,6 +366,6 @@ def mirror_pairs(ctx, rng, idx):
         fs = [rho * s_, rho * s_ * s_, rho * s_ ** 3]
         dxmin = float(np.min(mesh.vol()))
         for i in range(3):
-            ctx.close("mirror-pair:residual", np.max(np.abs(r[i])) * dxmin / fs[i] / cond, TOL, "mirror-pair/uniform-not-fixed/%s-%s/%s" % (inl["type"], out["type"], "first" if sgn == order[0] else "second-configuration"),
+            ctx.close("mirror-pair:residual", np.max(np.abs(r[i])) * dxmin / fs[i] , TOL + 1e3 * np.finfo(float).eps * _cond_rhs(cond), "mirror-pair/uniform-not-fixed/%s-%s/%s" % (inl["type"], out["type"], "first" if sgn == order[0] else "second-configuration"),
                       {"eq": i, "flow direction": sgn, "recon": rname, "flux": flux}, cls="mirror-pair")
     ctx.nontrivial("mirror", mname, gam, rho, p, mach, inl["type"], out["type"], order)
